@@ -1,6 +1,7 @@
 package client
 
 import (
+	"bytes"
 	"context"
 	"errors"
 	"fmt"
@@ -94,6 +95,17 @@ func (m *midElement) ReleaseMessage(cc *Conn) {
 		cc.ReleaseMessage(m.private.msg)
 		m.private.msg = nil
 	}
+}
+
+// isRequestWithToken tells whether the element holds a request (not a response, not a ping) that carries token.
+func (m *midElement) isRequestWithToken(token message.Token) bool {
+	m.private.Lock()
+	defer m.private.Unlock()
+	if m.private.msg == nil {
+		return false
+	}
+	c := m.private.msg.Code()
+	return c >= codes.GET && c <= codes.DELETE && bytes.Equal(m.private.msg.Token(), token)
 }
 
 func (m *midElement) IsExpired(now time.Time, maxRetransmit uint32, acknowledgeTimeout time.Duration) bool {
@@ -714,6 +726,7 @@ func (cc *Conn) handle(w *responsewriter.ResponseWriter[*Conn], m *pool.Message)
 		// msg was processed by token handler - just drop it.
 		return
 	}
+	cc.implicitAcknowledge(w, m)
 	if cc.blockWise != nil {
 		cc.blockWise.Handle(w, m, cc.blockwiseSZX, cc.session.MaxMessageSize(), func(rw *responsewriter.ResponseWriter[*Conn], rm *pool.Message) {
 			if h, ok := cc.loadAndDeleteTokenHandler(rm); ok {
@@ -729,6 +742,34 @@ func (cc *Conn) handle(w *responsewriter.ResponseWriter[*Conn], m *pool.Message)
 		return
 	}
 	cc.observationHandler.Handle(w, m)
+}
+
+// implicitAcknowledge: a separate response is an implicit acknowledgement of the confirmable request that carries
+// its token (RFC 7252 5.2.2), whichever way the request was issued - Do, an observe registration, WriteMessage:
+// stop waiting for (and retransmitting for) the acknowledgement, which may have been lost or overtaken.
+func (cc *Conn) implicitAcknowledge(w *responsewriter.ResponseWriter[*Conn], r *pool.Message) {
+	if r.Type() != message.Confirmable && r.Type() != message.NonConfirmable {
+		return
+	}
+	token := r.Token()
+	if r.Code() < codes.Created || len(token) == 0 {
+		return
+	}
+	mid := int32(-1)
+	cc.midHandlerContainer.Range(func(key int32, value *midElement) bool {
+		if value.isRequestWithToken(token) {
+			mid = key
+			return false
+		}
+		return true
+	})
+	if mid < 0 {
+		return
+	}
+	if elem, ok := cc.midHandlerContainer.LoadAndDelete(mid); ok {
+		elem.ReleaseMessage(cc)
+		elem.handler(w, r)
+	}
 }
 
 // loadAndDeleteTokenHandler returns the handler that waits for the answer m. Tokens are scoped per direction
